@@ -101,7 +101,6 @@ theorem scalarOK_str (E : Ext) (env : Env) (fl : Flags) (a b : Option Nat) (p : 
 /-- A literal of exactly the kind of a base scalar type that `check` accepts: at the validator generated for
 the type (whatever wrapper flags it carries) the literal's JSON token decodes, validates, and encodes as itself. -/
 theorem base_step (E : Ext) (C : CExt) (us : List CUnion) (env : Env)
-    (hpat : ∀ p s, C.prefixMatch p s = true → E.patMatch p s = true)
     (t0 : IrTy) (vt0 : PTy) (l : Lit) (hb : baseScalar t0 = true) (hvt : validatorOf t0 = some vt0)
     (hc : check E C us t0 l = .ok ()) (hk : exactKind t0 l = true) (fl : Flags) :
     ScalarOK E env (vt0.withFlags fl) (jsonOfLit l) := by
@@ -134,7 +133,7 @@ theorem base_step (E : Ext) (C : CExt) (us : List CUnion) (env : Env)
     intro q hq hne
     subst hq
     simp at hc
-    exact hpat q s (hc hne)
+    exact hc hne
 
 /-- the validator generated for a scalar type: the base validator, with the nullable flag iff the type is `T?` -/
 theorem validatorOf_scalar {t : IrTy} {vt : PTy} (hs : scalarTy t = true) (hvt : validatorOf t = some vt) :
@@ -202,7 +201,6 @@ def docVal (ex : List (String × ExVal)) (f : CField) : Option JVal :=
 /-- ONE FIELD: what `addStructExample` checked for a scalar field makes the field's member of the example
 document a member the runtime round-trips (`StepOK`). -/
 theorem field_step (E : Ext) (C : CExt) (us : List CUnion) (env : Env)
-    (hpat : ∀ p s, C.prefixMatch p s = true → E.patMatch p s = true)
     (ex : List (String × ExVal)) (f : CField) (fd : FieldDef)
     (hsc : scalarTy f.ty = true) (hfd : fieldDefOfC us f = some fd)
     (hdef : ∀ d, f.dflt = some d → ∃ lit, fieldDefault E C us f.ty lit = .ok d)
@@ -218,7 +216,7 @@ theorem field_step (E : Ext) (C : CExt) (us : List CUnion) (env : Env)
   -- a non-null literal of the exact kind that the base check accepts gives a good member
   have good : ∀ l, check E C us t0 l = .ok () → exactKind t0 l = true → StepSome E env fd (jsonOfLit l) := by
     intro l hc hk
-    have sc := base_step E C us env hpat t0 vt0 l hb hvt0 hc hk fl
+    have sc := base_step E C us env t0 vt0 l hb hvt0 hc hk fl
     rw [← hvteq, ← hty] at sc
     exact { dec := sc.dec, set := attrSet_of_validate E env fd _ sc.nn hud' sc.val, wir := sc.wir, nn := sc.nn,
             vld := sc.vld, nrm := sc.nrm }
